@@ -4,7 +4,7 @@ import json
 import os
 
 import vflib
-from vflib import trace_stage, log
+from vflib import trace_stage, world_stage, log
 
 CHECKS = {}
 LEVELS = {}
@@ -131,3 +131,69 @@ def c06(run):
     trace_stage(run, "rta", "rta",
                 nontrivial=lambda e: e["out"].get("ok", -1) not in (0, e["in"]["tua"].get("C", -2)),
                 keyfn=lambda e: {k: v for k, v in e["in"].items() if k != "tags"})
+
+
+SCHED_RULE = ("systems: task sets (2-3 tasks, thorough 2-4; periodic / sporadic+jitter / delta-min-prefix arrivals, T<=7 (10), C<=3 (4), "
+              "random priorities incl. ties, deadlines up to 2T+2, random segment layouts and floating-region lengths) x preemption "
+              "variant; each task's bound is obtained from the real analysis with the inputs the property prescribes; TLC explores every "
+              "schedule (all curve-compliant releases, execution times 1..C, region placements, tie-breaks; unbounded time) of every "
+              "system; non-trivial = some claimed bound exceeds the task's own WCET; distinct = canonical JSON of the system")
+SCHED_ASSUME = ["scheduler semantics of spec/Sched.tla (discrete time, work-conserving, policy re-evaluated at preemption points)",
+                "tasks without a claim (analysis returned Err) do not age and hold at most one pending job",
+                "LP jobs execute every segment (length 1..bound); execution times 1..C otherwise",
+                "magnitudes: periods <= 10, bounds <= divergence limit 40 (60)"]
+
+
+def _nsys(run, q, t):
+    return str(t if run.tier == "thorough" else q)
+
+
+def _equational(run, policies, scale="1"):
+    """second, independent path (DESIGN.md §4 C01): the same analyses against their definitional evaluation"""
+    run.assumptions.append("second stage: trace validation of the same analyses against Analyses.tla (as in C06)")
+    # a panic is "no claim" for a safety property (C20 owns panics)
+    trace_stage(run, "equational", "rta", extra=["--policies", policies, "--scale", scale], ignore_checks=("returns",),
+                nontrivial=lambda e: e["out"].get("ok", -1) not in (0, e["in"]["tua"].get("C", -2)),
+                keyfn=lambda e: {k: v for k, v in e["in"].items() if k != "tags"})
+
+
+@check("C01")
+def c01(run):
+    run.cov["rule"] = SCHED_RULE
+    run.assumptions += SCHED_ASSUME
+    world_stage(run, "fp-schedules", "systems", "MCSched.tla", "MCSched.cfg",
+                extra=["--families", "fp", "--nsys", _nsys(run, 80, 600)])
+    _equational(run, "fp_p,fp_np,fp_lp,fp_fnp")
+
+
+@check("C02")
+def c02(run):
+    run.cov["rule"] = SCHED_RULE
+    run.assumptions += SCHED_ASSUME
+    world_stage(run, "edf-schedules", "systems", "MCSched.tla", "MCSched.cfg",
+                extra=["--families", "edf", "--nsys", _nsys(run, 500, 2500)])
+    _equational(run, "edf_p,edf_np,edf_lp,edf_fnp")
+
+
+@check("C03")
+def c03(run):
+    run.cov["rule"] = SCHED_RULE
+    run.assumptions += SCHED_ASSUME
+    world_stage(run, "fifo-schedules", "systems", "MCSched.tla", "MCSched.cfg",
+                extra=["--families", "fifo", "--nsys", _nsys(run, 900, 8000)])
+    _equational(run, "fifo", scale="4")
+
+
+@check("C18")
+def c18(run):
+    run.cov["rule"] = ("systems as in C01/C03 restricted to exact realisable arrival models (periodic, sporadic+jitter, auto-extrapolating "
+                       "super-additive delta-min prefixes) and to the fully preemptive FP, non-preemptive FP and FIFO analyses; TLC explores "
+                       "every schedule and a witness state (a job completing with response time = bound) must be reached for every claimed "
+                       "task (FIFO: for some task); non-trivial = some bound exceeds the own WCET; distinct = canonical JSON of the system")
+    run.assumptions += SCHED_ASSUME
+
+    def alts(r):
+        keys = ["%d %d" % (r["id"], i + 1) for i, t in enumerate(r["tasks"]) if t["R"] >= 0]
+        return [keys] if r["policy"] == "fifo" else [[k] for k in keys]
+    world_stage(run, "attained", "systems", "MCSched.tla", "MCSchedWitness.cfg", witness=alts,
+                extra=["--families", "fp,fifo", "--exact", "1", "--nsys", _nsys(run, 60, 600)])
